@@ -71,6 +71,9 @@ def build_cfg(scn):
         "opts": [[[k, render_prim(v)] for k, v in t.get("options", {}).items()] for t in tasks],
         "jobs": jobs, "stop": ("--stop-early" in argv or "-e" in argv),
         "maxrow": max([r["ts"] for r in rows] or [0]),
+        # B2 (real processes): Conductor's output lines are stamped when they ARRIVE on the pipe, i.e. possibly long after
+        # they were printed, while process events carry exact stamps - a line may never be required to precede a process event
+        "linesLate": bool(scn.get("real")),
     }
     return cfg, num
 
